@@ -22,7 +22,7 @@ import warnings
 from . import c11 as C11
 
 LEVEL = "exploration"
-TECHNIQUE = "runtime monitoring, offline history checker: sequences of 2-5 runs (fresh subprocesses, bytecode writing enabled) over one cache directory, each with its own hook set / typechecker / import order / source edit; per run and module the observed (instrumented?, by which spy, source version) is compared with the stateless expectation; .pyc files created per run are recorded; runs under python -O / -OO and -B, sources older than the library, re-hooking with another typechecker in one process, imports started deep inside the call stack (dense sweep of distances from the recursion limit), damaged cache entries, imports concurrent with a hooked load in another thread, and a source file saved again DURING its import (an audit hook performs the save at a chosen moment: before the read, at compile(), before the cache write)"
+TECHNIQUE = "runtime monitoring, offline history checker: sequences of 2-5 runs (fresh subprocesses, bytecode writing enabled) over one cache directory, each with its own hook set / typechecker / import order / source edit; per run and module the observed (instrumented?, by which spy, source version) is compared with the stateless expectation; .pyc files created per run are recorded; runs under python -O / -OO and -B, sources older than the library, re-hooking with another typechecker in one process, imports started deep inside the call stack (dense sweep of distances from the recursion limit), damaged cache entries, imports concurrent with a hooked load in another thread, and a source file saved again DURING its import (an audit hook performs the save at a chosen moment: before the read, at compile(), before the cache write); every module also reports __debug__, whether its assert fires and whether it has a docstring: the code executed was compiled for this run's optimisation level"
 LEVEL_TEXT = (
     "Held on every generated history explored (each run a real interpreter start with PYTHONDONTWRITEBYTECODE unset, which "
     "this sandbox otherwise sets - the repository's suite can never read a cache back). Sampling over histories."
@@ -55,7 +55,7 @@ def required_counters(tier):
         "nested_unhooked_inside_hooked": 30,
         "nested_hooked_inside_unhooked": 10,
         "pyc_files_created": 200,
-        "runs_with_cache_present": 100, "runs_with_failing_hooked_import": 20, "runs_read_only_cache": 20, "in_process_reimport": 5, "in_process_edit_and_reimport": 5, "runs_with_checking_disabled": 15, "source_edits.same_mtime_other_size": 10, "in_process_rehook_with_other_checker": 5, "histories.sources_older_than_the_library": 20, "runs_python_O": 30, "histories.pycache_blocked": 5, "corrupt_cache.scenarios": 4, "concurrent_imports.scenarios": 1, "deep_import.modules": 10, "edit_during_import.scenarios": 8,
+        "runs_with_cache_present": 100, "runs_with_failing_hooked_import": 20, "runs_read_only_cache": 20, "in_process_reimport": 5, "in_process_edit_and_reimport": 5, "runs_with_checking_disabled": 15, "source_edits.same_mtime_other_size": 10, "in_process_rehook_with_other_checker": 5, "histories.sources_older_than_the_library": 20, "runs_python_O": 30, "histories.pycache_blocked": 5, "corrupt_cache.scenarios": 4, "concurrent_imports.scenarios": 1, "deep_import.modules": 10, "edit_during_import.scenarios": 8, "optimisation_level_observations": 500,
     }
 
 
@@ -279,6 +279,13 @@ def run_history(rec, rng, key):
                     rec.count("status_flips." + ("plain_to_hooked" if ps is None else "hooked_to_plain" if want is None else "checker_changed"))
                 if got["version"] != versions[m]:
                     rec.violation("stale-source", case, f"run {ri}: module {m} runs source version {got['version']}, current source is version {versions[m]}", mechanism="stale-source-version")
+                    return case
+                # the code that runs was compiled for THIS interpreter's optimisation level (asserts, __debug__, docstrings)
+                want_level = {"debug_constant": optimize == 0, "assert": "assert-ran" if optimize == 0 else "no-assert", "has_docstring": optimize < 2}
+                got_level = {k: got.get(k) for k in want_level}
+                rec.count("optimisation_level_observations")
+                if got_level != want_level:
+                    rec.violation("wrong-optimisation-level", case, f"run {ri} (python {'-O' * bool(optimize)}{'O' * (optimize == 2)} level {optimize}): module {m} ({'plain' if want is None else 'hooked'}) executes code with {got_level}, this interpreter compiles {want_level}; earlier runs: {[h['python_optimize'] for h in history[:-1]]}", mechanism=f"cache-serves-code-compiled-for-another-optimisation-level-to-{'unhooked' if want is None else 'hooked'}-module")
                     return case
                 if want is None:
                     ok = not got["wrapped"] and not got["spies"] and got["ill_typed"] == "ran"
